@@ -96,6 +96,9 @@ type VerifFaults struct {
 	// ReplaceBudget < 0: unlimited; otherwise the local store fails the
 	// (ReplaceBudget+1)-th recovery page replacement of this call (crash point).
 	ReplaceBudget int
+	// PageDrop: the voter answers the frontier probe round (empty index list) but its identity-page
+	// replies (probe rounds with indexes) are lost.
+	PageDrop map[ch.NodeID]bool
 }
 
 // VerifSealed is one proposal observed at the local durability submission.
@@ -459,6 +462,10 @@ func (d *verifDispatcher) submitRecoveryProbe(_ context.Context, query recoveryP
 	}
 	if d.unreachable(query.Voter) {
 		complete(ProbeResult{}, errVerifUnreachable)
+		return nil
+	}
+	if len(query.Indexes) > 0 && d.c.faults.PageDrop[query.Voter] {
+		complete(ProbeResult{}, errVerifLost)
 		return nil
 	}
 	request := ProbeRequest{ChannelKey: query.ChannelKey, ChannelID: query.ChannelID, Leader: query.Leader, Follower: query.Voter, Indexes: append([]uint64(nil), query.Indexes...)}
